@@ -3,6 +3,7 @@ conductor (spec -> code direction of the binding)."""
 
 import json
 import multiprocessing as mp
+from .par import pmap
 import os
 import re
 
@@ -111,5 +112,4 @@ def replay_leaves(defs, leaves, lang="yaql", procs=16):
     jobs = [(d, by[d["name"]], lang) for d in defs if d["name"] in by]
     if not jobs:
         return []
-    with mp.Pool(min(procs, len(jobs))) as pool:
-        return pool.map(_replay_job, jobs)
+    return pmap(_replay_job, jobs, procs)
